@@ -15,3 +15,16 @@ package main
 //@        has(conversion, "A") && conversion["A"] == "Monday" && has(conversion, "a") && conversion["a"] == "Mon" && has(conversion, "I") && conversion["I"] == "03" &&
 //@        has(conversion, "p") && conversion["p"] == "PM" && has(conversion, "Z") && conversion["Z"] == "MST" && has(conversion, "z") && conversion["z"] == "-0700"
 
+
+// updateTopics$1 (the goroutine every new FileLogger gets): runs that logger's router, gives its wait-group slot back (the router has no frame, so the count cannot be stated) - and does
+// NOTHING else with the logger's messages: whatever was finished was finished by the router, under the router's contract (every finished
+// message had been written and fsynced; seeded change C19-r8a finished a message still parked in logChan after the router had returned).
+// The router's own preconditions - a logger as NewFileLogger builds it, option ranges as main() validates them - are `env-` assumptions here:
+// updateTopics does not carry the validated-options fact (reported in the evidence).
+//@ func (t *TopicDiscoverer) updateTopics$1(fl *FileLogger)
+//@   props C19
+//@   requires t != nil
+//@   requires[env-router-preconditions] hCfg(fl) && hRouterInv(fl) && fl.consumer != nil && fl.opts.MaxInFlight >= 1
+//@   ensures[finish-after-sync] hNoUnsafeAck(fl.opts.GZIP)
+//@   ensures[finished-were-written] r3dAckUnwritten == old(r3dAckUnwritten)
+//@   ensures[finished-had-auto-response-off] r3dAckAutoOn == old(r3dAckAutoOn)
